@@ -129,8 +129,8 @@ def _simplify_node_variants(spec, idx):
         if len(p) > 1:
             out.append(variant(plan=p[:-1]))
             out.append(variant(plan=p[1:]))
-        if any(x.endswith('?') for x in p):
-            out.append(variant(plan=[x.rstrip('?') for x in p]))
+        if any('?' in x for x in p):
+            out.append(variant(plan=[x.split('?')[0] for x in p]))
     if n.get('retry'):
         out.append(variant(retry=None))
     if n.get('value') not in (None, 'prov') and not isinstance(n.get('value'), dict):
